@@ -27,6 +27,9 @@ func ShrinkMode() { waitLimit = 1500 * time.Millisecond }
 
 // ---- messages ---------------------------------------------------------------
 
+// AckMsg is what the receiver answers with when the spec asks for replies.
+type AckMsg struct{ ID int }
+
 type UMsg struct {
 	ID       int
 	Panic    bool
@@ -227,6 +230,10 @@ func (r *rcv) Receive(c *actor.Context) {
 	case UMsg:
 		e.Kind, e.ID, e.MsgOK = "user", m.ID, true
 		w.add(e)
+		if w.spec.Replies && e.From >= 1 {
+			// the sender is a PID nobody answers to: the reply is a dead letter, the delivery is not
+			c.Respond(AckMsg{ID: m.ID})
+		}
 		if m.Chain > 0 {
 			c.Send(c.PID(), UMsg{ID: m.ID + 1, Chain: m.Chain - 1, Link: true})
 		} else if m.Link {
@@ -307,34 +314,37 @@ func (w *world) middleware(i int) actor.MiddlewareFunc {
 				next(c) // the decoy's own deliveries are not part of the observation
 				return
 			}
-			e := Entry{Who: who, Phase: "in", From: w.fromIndex(c.Sender())}
-			switch m := c.Message().(type) {
-			case actor.Initialized:
-				e.Kind = "Initialized"
-			case actor.Started:
-				e.Kind = "Started"
-			case actor.Stopped:
-				e.Kind = "Stopped"
-			case UMsg:
-				e.Kind, e.ID = "user", m.ID
-			case GateMsg:
-				e.Kind = "gate"
-			case SyncMsg:
-				e.Kind, e.ID = "sync", m.N
-			case ProbeMsg:
-				e.Kind, e.ID = "probe", m.N
-			default:
-				e.Kind = "foreign:" + reflect.TypeOf(c.Message()).String()
+			// what the Context shows is read anew on the way out: it is the same delivery
+			view := func(phase string) Entry {
+				e := Entry{Who: who, Phase: phase, From: w.fromIndex(c.Sender())}
+				switch m := c.Message().(type) {
+				case actor.Initialized:
+					e.Kind = "Initialized"
+				case actor.Started:
+					e.Kind = "Started"
+				case actor.Stopped:
+					e.Kind = "Stopped"
+				case UMsg:
+					e.Kind, e.ID = "user", m.ID
+				case GateMsg:
+					e.Kind = "gate"
+				case SyncMsg:
+					e.Kind, e.ID = "sync", m.N
+				case ProbeMsg:
+					e.Kind, e.ID = "probe", m.N
+				default:
+					e.Kind = "foreign:" + reflect.TypeOf(c.Message()).String()
+				}
+				return e
 			}
-			w.add(e)
+			w.add(view("in"))
 			done := false
 			defer func() {
-				x := e
-				x.Phase = "out"
 				if !done {
-					x.Phase = "unwound"
+					w.add(view("unwound"))
+				} else {
+					w.add(view("out"))
 				}
-				w.add(x)
 			}()
 			next(c)
 			done = true
